@@ -459,3 +459,53 @@ fn db_meta_legacy_headers_accepted() {
     }
     std::mem::forget(db);
 }
+
+fn lay_legacy_meta(s: u64, tx: u64, root_page: u64) {
+    let d = jv_env::disk();
+    unsafe {
+        let p = &mut *(d.as_mut_ptr().add((s * PS) as usize) as *mut Page);
+        p.id = s;
+        p.page_type = Page::TYPE_META;
+        p.count = 0;
+        p.overflow = 0;
+        let m = &mut *(&mut p.ptr as *mut u64 as *mut crate::meta::OldMeta);
+        m.meta_page = s as u32;
+        m.magic = MAGIC_VALUE;
+        m.version = VERSION;
+        m.pagesize = PS;
+        m.root = BucketMeta { root_page, next_int: 5 };
+        m.num_pages = 9;
+        m.freelist_page = 2;
+        m.tx_id = tx;
+        m.hash = m.hash_self();
+    }
+}
+
+// ---- C15 / C02: a legacy-format file after its first commit under the current code: one slot still carries the
+//      legacy header (older state), the other the current-format header the commit wrote (newer state). The
+//      newer, current-format header must win, in either slot arrangement -- otherwise every commit to a legacy
+//      file is silently lost.
+fn mixed_headers_case(legacy_slot: u64) {
+    let cur = 1 - legacy_slot;
+    lay_legacy_meta(legacy_slot, 6, 3);
+    lay_meta(cur, cur, 7, 4, 5, 9, 2, PS);
+    let db = mk_dbinner(4, DBFlags { strict_mode: false, mmap_populate: false, direct_writes: false });
+    let m = db.meta();
+    assert!(m.is_ok());
+    if let Ok(m) = m {
+        assert!(m.tx_id == 7 && m.root.root_page == 4 && m.meta_page == cur as u32, "JV-C15-MIXED: the state committed by the current code (current-format header) wins over the older legacy header");
+    }
+    std::mem::forget(db);
+}
+// @ob props=C15,C02 tier=quick cap=600 fns=DBInner::meta,Page::meta,Meta::valid,Page::old_meta,OldMeta::valid bound="slot 0 legacy header (tx 6), slot 1 current-format header (tx 7), concrete fields" unwind=40
+#[kani::proof]
+#[kani::unwind(40)]
+fn db_meta_legacy_then_current_header() {
+    mixed_headers_case(0);
+}
+// @ob props=C15,C02 tier=quick cap=600 fns=DBInner::meta,Page::meta,Meta::valid,Page::old_meta,OldMeta::valid bound="slot 1 legacy header (tx 6), slot 0 current-format header (tx 7), concrete fields" unwind=40
+#[kani::proof]
+#[kani::unwind(40)]
+fn db_meta_current_then_legacy_header() {
+    mixed_headers_case(1);
+}
